@@ -1,0 +1,22 @@
+//! Verification hooks (cargo feature `verif`).
+//!
+//! Nothing in here is compiled unless the `verif` feature is enabled. With the
+//! feature enabled but no hook installed, behaviour is identical to the
+//! normal build.
+use std::cell::Cell;
+
+thread_local! {
+    static STREAM_SIZE: Cell<Option<usize>> = const { Cell::new(None) };
+}
+
+/// Override the size (in bytes) of streams created by `new_stream()` on the
+/// current thread. `None` restores the default.
+pub fn set_stream_size(size: Option<usize>) {
+    STREAM_SIZE.with(|s| s.set(size));
+}
+
+/// Current stream size override for this thread, if any.
+#[must_use]
+pub fn stream_size() -> Option<usize> {
+    STREAM_SIZE.with(|s| s.get())
+}
